@@ -5,7 +5,7 @@ From Coq Require Import List NArith Bool String.
 Import ListNotations.
 From JR Require Import Conn Conn_Proofs.
 From JRGen Require Extracted.
-From JR Require Skeletons.
+From JR Require Skeletons Conn_Progress.
 Open Scope N_scope.
 
 (* closers as written in /repo: websocket waits for the loop to exit, http/custom just close their stop channel *)
@@ -81,6 +81,14 @@ Example c18_abandon_then_close : exists s,
                        CifDeliver 1; CifCleared; LoopExit; CallRecv 1 true; CallReturn 1 OConnErr]%N = Some s /\ no_orphan s = true.
 Proof. eexists. split; [vm_compute; reflexivity|reflexivity]. Qed.
 
+(* after the loop has exited and closeInFlight is through, in every reachable state in which nothing internal is left to do:
+   every call has returned (or is a retry-tagged caller on its way to be told that the client is gone) — nothing waits *)
+Theorem c18_nothing_waits_after_exit : forall s es id c,
+  run repaired_c init es = Some s -> Conn_Progress.quiet s -> is_exited s = true -> cif_pending s = false ->
+  lookup id (calls s) = Some c ->
+  ph c = PDone \/ (ph c = PRecvd /\ got c = Some OConnErr /\ retry c = true).
+Proof. exact Conn_Progress.quiescent_after_exit. Qed.
+
 (* the functions this property's model is an abstraction of still have the control / locking / shared-state skeleton the
    model was written against (Skeletons.v, by hand; Extracted.v, regenerated from /repo) *)
 Theorem c18_code_skeletons :
@@ -92,6 +100,7 @@ Theorem c18_code_skeletons :
 Proof. repeat split; reflexivity. Qed.
 
 Print Assumptions c18_code_skeletons.
+Print Assumptions c18_nothing_waits_after_exit.
 Print Assumptions c18_unusable_response_keeps_request.
 Print Assumptions c18_looked_up_entry_present.
 Print Assumptions c18_source_closers.
